@@ -277,7 +277,7 @@ func (w *DispatchWorld) curDelivery() *delivery {
 
 func NewDispatchWorld(spec *SysSpec, offset int64, seed int64, arm func(string) bool) (*DispatchWorld, error) {
 	w := &DispatchWorld{byID: map[string]*dmsg{}, byLease: map[string]*dmsg{}, cur: map[*Task]*delivery{}, inDeliver: map[string]*Task{}, taskItems: map[*Task][]queue.Envelope{}, expect: map[string]*settlement{}}
-	w.Model = NewModel(QConfig{Backend: spec.Backend, MaxDepth: spec.MaxDepth, DropPolicy: spec.DropPolicy, DeliveredMaxAge: spec.Delivered})
+	w.Model = NewModel(sysQConfig(spec))
 	sw, err := NewSysWorld(spec, offset, SysOptions{Seed: seed, ArmPoints: arm, OnStore: func(ss *SimStore) {
 		ss.OnEnqueue = func(envs []queue.Envelope, batch bool, n int, err error) {
 			w.addAll(w.Model.Enqueue(w.Clock.Peek(), envs, batch, n, err), "dispatch/enqueue")
